@@ -45,3 +45,48 @@ PROPS["C01"] = {
     "outside": "parents larger than 32 bytes (same code, same full-width operands, smaller allocation)",
     "assumptions": ["ref_at index assumed < len (documented program-logic panic)"],
 }
+
+PROPS["C04"] = {
+    "groups": [
+        {"crate": "std", "quick": ["c04::"], "jobs": 16, "mem_gb": 6, "timeout_s": 900},
+    ],
+    "bounds": "container = every window (offset, length) of a 16-byte 8-aligned buffer with symbolic contents; addr/offset/count/index unconstrained usize; "
+              "local byte buffers: every window of a 16-byte buffer with length <= 12 (both sides of the 8-byte volatile-copy threshold, every alignment); "
+              "element arrays of <= 4 elements; object types u8,u16,u32,u64,u128,[u8;3],[u16;2],Le32,Be64; atomic types u8,u16,u32,u64,i32,usize; "
+              "frame check = one symbolic byte index per query (stands for all bytes); one operation from an arbitrary memory state per query",
+    "outside": "containers larger than 16 bytes and transfers longer than 12 bytes (bulk branch = copy_nonoverlapping, exercised for 9..=12 bytes)",
+    "assumptions": ["route agreement is by composition: every read route returns exactly the bytes in memory from an arbitrary state, every write route sets exactly its bytes"],
+}
+
+_VS_BOUNDS = ("slice level: container = every window of a 16-byte 8-aligned buffer carrying RefSlice<Recorder> at a symbolic root offset "
+              "(<= usize::MAX/2) so that marks arrive at the root through the real BaseSlice chain; same operations/arguments as C04")
+
+PROPS["C05"] = {
+    "groups": [
+        {"crate": "std", "quick": ["c05::"], "jobs": 16, "mem_gb": 6, "timeout_s": 900},
+    ],
+    "bounds": _VS_BOUNDS,
+    "outside": "writes through raw pointers / references obtained from the library (exempt by the statement)",
+    "assumptions": ["Recorder (harness/std/src/recorder.rs) is a Bitmap that logs mark_dirty(offset,len) calls; it sits behind the crate's real BaseSlice"],
+}
+
+PROPS["C16"] = {
+    "groups": [
+        {"crate": "std", "quick": ["c16::"], "jobs": 16, "mem_gb": 6, "timeout_s": 900},
+    ],
+    "bounds": _VS_BOUNDS,
+    "outside": "",
+    "assumptions": ["'rejected' = rejected before any byte moved; all-or-error forms failing with PartialBuffer have written and must have marked exactly the completed prefix"],
+}
+
+PROPS["C09"] = {
+    "groups": [
+        {"crate": "std", "quick": ["c09::q_"], "thorough": ["c09::t_"], "jobs": 16, "mem_gb": 8, "timeout_s": 900, "timeout_thorough_s": 2400},
+    ],
+    "bounds": "grid of concrete (page size, byte size): quick = page 1/3/7/4096 with 0,1,2,10 pages (unrestricted 64-bit ranges) and 64/65/129-page bitmaps "
+              "with ranges of <= 3 pages starting anywhere in the 64-bit space; thorough adds 33/64/65-page bitmaps with unrestricted ranges. "
+              "Pre-state = three symbolic pages set; one operation with unconstrained arguments; read-out at a symbolic page index and byte address; "
+              "enlarge by 1 byte / by one page; slices of depth 1 and 2 with unconstrained (wrapping) offsets",
+    "outside": "bitmaps larger than 129 pages; arbitrary pre-states with more than three marked pages; symbolic page/byte sizes (container shapes are grid points)",
+    "assumptions": [],
+}
